@@ -1,6 +1,362 @@
 package main
 
-import "golang.org/x/tools/go/ssa"
+// E3 class F: termination-related structure.
+//   F1: a loop-carried cursor advanced by a request-derived amount must advance
+//       by at least 1 and (for unsigned cursors) must not wrap around.
+//   F2: a channel send/receive executed on behalf of an HTTP handler must sit in
+//       a select that has a cancellation, timeout or default arm.
 
-// placeholder until E3 is in place
-func checkCursorProgress(p *Program, r *Reporter, fns []*ssa.Function, rule string, floor int) {}
+import (
+	"fmt"
+	"go/token"
+	"go/types"
+	"strings"
+
+	"golang.org/x/tools/go/ssa"
+)
+
+var e3shared *e3
+
+func sharedE3(p *Program, r *Reporter) *e3 {
+	if e3shared == nil || e3shared.p != p {
+		e3shared = newE3(p, r)
+	}
+	e3shared.r = r
+	return e3shared
+}
+
+// checkCursorProgress applies F1 to the given functions.
+func checkCursorProgress(p *Program, r *Reporter, fns []*ssa.Function, rule string, floor int) {
+	e := sharedE3(p, r)
+	r.Rule(rule, "loop cursor advanced by a request-derived amount: amount >= 1 proven and wrap-around excluded by a dominating guard", floor)
+	for _, fn := range fns {
+		for _, b := range fn.Blocks {
+			for _, in := range b.Instrs {
+				add, ok := in.(*ssa.BinOp)
+				if !ok || add.Op != token.ADD {
+					continue
+				}
+				var cursor *ssa.Phi
+				var amt ssa.Value
+				if ph, ok := add.X.(*ssa.Phi); ok {
+					cursor, amt = ph, add.Y
+				} else if ph, ok := add.Y.(*ssa.Phi); ok {
+					cursor, amt = ph, add.X
+				}
+				if cursor == nil {
+					continue
+				}
+				if _, isConst := amt.(*ssa.Const); isConst {
+					continue
+				}
+				// the sum must flow back into the phi (loop-carried)
+				loopCarried := flowsBackInto(add, cursor)
+				// the amount is a number read directly from the request (a size field), not a derived total
+				if !loopCarried || !e.g.isTainted(amt) || !e.g.isDirect(amt) {
+					continue
+				}
+				// only cursors that steer the loop: used (directly or by +const) as slice bound / index or in a loop condition
+				construct := "cursor:" + roleKey(cursor) + "+=" + roleKey(amt)
+				pos := p.pos(instrPos(add))
+				rg := e.rg.rangeAt(amt, b, 0)
+				progress := rg.lo >= 1
+				wrapOK := true
+				wrapWhy := ""
+				if isUnsigned(cursor.Type()) {
+					wrapOK, wrapWhy = e.wrapGuarded(cursor, amt, add, b)
+				}
+				switch {
+				case progress && wrapOK:
+					r.Discharge(rule, shortFn(fn), construct, pos, fmt.Sprintf("amount in %s (%s); %s", rg, rg.why, wrapWhy))
+				case !progress:
+					r.Violate(rule, shortFn(fn), construct, pos,
+						fmt.Sprintf("the request-derived amount added to the loop cursor is only known to be in %s: an amount of 0 makes the loop spin forever", rg), p.callPath(fn))
+				default:
+					r.Violate(rule, shortFn(fn), construct, pos,
+						"the unsigned loop cursor can wrap around: no dominating guard relates the amount to the remaining range of the cursor", p.callPath(fn))
+				}
+			}
+		}
+	}
+}
+
+// wrapGuarded: on every feasible path a condition of the shape
+// amt <= K - cursor (or its negation leading away) / cursor + amt >= cursor holds.
+func (e *e3) wrapGuarded(cursor *ssa.Phi, amt ssa.Value, add *ssa.BinOp, b *ssa.BasicBlock) (bool, string) {
+	f := factsOf(b.Parent())
+	akey := exprKey(amt)
+	n := 0
+	why := ""
+	for _, set := range f.condSets(b) {
+		if !e.rg.feasible(set, 0) {
+			continue
+		}
+		n++
+		found := false
+		for _, c := range set {
+			bo, ok := c.V.(*ssa.BinOp)
+			if !ok {
+				continue
+			}
+			op := bo.Op
+			if !c.Pos {
+				op = negateOp(op)
+			}
+			isAmt := func(v ssa.Value) bool { return v == amt || (akey != "" && exprKey(v) == akey) }
+			isRemaining := func(v ssa.Value) bool { // K - cursor
+				s, ok := v.(*ssa.BinOp)
+				if !ok || s.Op != token.SUB {
+					return false
+				}
+				_, isK := s.X.(*ssa.Const)
+				return isK && s.Y == ssa.Value(cursor)
+			}
+			isSum := func(v ssa.Value) bool {
+				s, ok := v.(*ssa.BinOp)
+				return ok && s.Op == token.ADD && ((s.X == ssa.Value(cursor) && isAmt(s.Y)) || (s.Y == ssa.Value(cursor) && isAmt(s.X)))
+			}
+			switch {
+			case isAmt(bo.X) && isRemaining(bo.Y) && (op == token.LEQ || op == token.LSS):
+				found = true
+			case isRemaining(bo.X) && isAmt(bo.Y) && (op == token.GEQ || op == token.GTR):
+				found = true
+			case isSum(bo.X) && bo.Y == ssa.Value(cursor) && (op == token.GEQ || op == token.GTR):
+				found = true
+			case bo.X == ssa.Value(cursor) && isSum(bo.Y) && (op == token.LEQ || op == token.LSS):
+				found = true
+			}
+			if found {
+				why = "wrap-around excluded by guard at " + e.p.pos(bo.Pos())
+				break
+			}
+		}
+		if !found {
+			return false, ""
+		}
+	}
+	if n == 0 {
+		return true, "unreachable"
+	}
+	return true, why
+}
+
+// ---------------------------------------------------------------- F2
+
+type chanException struct {
+	fn, reason string
+}
+
+var chanExceptions = []chanException{
+	{"(*recv.channel).addChunkData", "buffered channel (capacity 10) drained by channel.run, which lives as long as the process context; a full buffer only delays the upload"},
+	{"(*app.cmafSource).Write", "cmafSource is constructed only in the ingester goroutine (sendMediaSegment) and never handed to an HTTP handler; the call-graph edge from the handlers is an artefact of the shared http.ResponseWriter interface"},
+	{"(*app.cmafSource).Read", "called by the http client of the ingester goroutine only"},
+}
+
+// checkChannelOps applies F2 to functions reachable from HTTP handler roots.
+func checkChannelOps(p *Program, r *Reporter, rule string, floor int) {
+	r.Rule(rule, "channel send/receive reachable from an HTTP handler: inside a select with a cancellation, timeout or default arm", floor)
+	var hroots []*ssa.Function
+	for _, rt := range p.Roots {
+		if rt.Class == "H" {
+			hroots = append(hroots, rt.Fn)
+		}
+	}
+	reach := reachableWithoutGo(p, hroots)
+	var fns []*ssa.Function
+	for _, fn := range p.handlerReachableRepoFuncs() {
+		if reach[fn] {
+			fns = append(fns, fn)
+		}
+	}
+	for _, fn := range fns {
+		ordinal := 0
+		for _, b := range fn.Blocks {
+			for _, in := range b.Instrs {
+				var what string
+				switch x := in.(type) {
+				case *ssa.Send:
+					what = "send:" + roleKey(x.Chan)
+				case *ssa.UnOp:
+					if x.Op == token.ARROW {
+						what = "recv:" + roleKey(x.X)
+						if isCtxDone(x.X) {
+							what = "" // waiting for cancellation itself
+						}
+					}
+				case *ssa.Select:
+					if x.Blocking {
+						hasEscape := false
+						for _, st := range x.States {
+							if st.Dir == types.RecvOnly && (isCtxDone(st.Chan) || isTimer(st.Chan) || isDoneChan(st.Chan)) {
+								hasEscape = true
+							}
+						}
+						if !hasEscape {
+							what = "select-without-cancel-arm"
+						} else {
+							r.Discharge(rule, shortFn(fn), "select", p.pos(instrPos(in)), "blocking select has a cancellation / timer / done-channel arm")
+						}
+					}
+				}
+				if what == "" {
+					continue
+				}
+				ordinal++
+				pos := p.pos(instrPos(in))
+				excepted := false
+				for _, ex := range chanExceptions {
+					if ex.fn == shortFn(fn) {
+						r.Exception(rule, shortFn(fn), what, pos, "reviewed exception: "+ex.reason)
+						excepted = true
+					}
+				}
+				if excepted {
+					continue
+				}
+				r.Violate(rule, shortFn(fn), what, pos,
+					"blocking channel operation on behalf of an HTTP handler without cancellation, timeout or default arm: the request never returns if the peer goroutine has exited", p.callPath(fn))
+			}
+		}
+	}
+}
+
+func isCtxDone(ch ssa.Value) bool {
+	c, ok := ch.(*ssa.Call)
+	if !ok {
+		return false
+	}
+	if c.Call.IsInvoke() && c.Call.Method.Name() == "Done" {
+		return strings.Contains(types.TypeString(c.Call.Value.Type(), nil), "context.Context")
+	}
+	return false
+}
+
+func isTimer(ch ssa.Value) bool {
+	switch x := ch.(type) {
+	case *ssa.Call:
+		if callee := x.Call.StaticCallee(); callee != nil {
+			n := callee.String()
+			return n == "time.After" || n == "time.Tick"
+		}
+	case *ssa.UnOp:
+		if f, ok := loadedField(x); ok {
+			return strings.HasSuffix(f, "Timer.C") || strings.HasSuffix(f, "Ticker.C")
+		}
+	case *ssa.Field:
+		return strings.HasSuffix(structFieldOf(x.X.Type(), x.Field), ".C")
+	}
+	return false
+}
+
+// reachableWithoutGo: functions that execute on the handler's own goroutine
+// (call edges of `go` statements are not followed).
+func reachableWithoutGo(p *Program, starts []*ssa.Function) map[*ssa.Function]bool {
+	seen := map[*ssa.Function]bool{}
+	var q []*ssa.Function
+	for _, s := range starts {
+		if !seen[s] {
+			seen[s] = true
+			q = append(q, s)
+		}
+	}
+	for len(q) > 0 {
+		fn := q[0]
+		q = q[1:]
+		for _, b := range fn.Blocks {
+			for _, in := range b.Instrs {
+				site, ok := in.(ssa.CallInstruction)
+				if !ok {
+					continue
+				}
+				if _, isGo := in.(*ssa.Go); isGo {
+					continue
+				}
+				for _, c := range p.calleesAt(site) {
+					if !seen[c] {
+						seen[c] = true
+						q = append(q, c)
+					}
+				}
+				// closures passed as arguments run on this goroutine when called by the callee
+				for _, a := range site.Common().Args {
+					for _, f := range unwrapFuncValues(a, 0) {
+						if f != nil && !seen[f] {
+							seen[f] = true
+							q = append(q, f)
+						}
+					}
+				}
+			}
+		}
+	}
+	return seen
+}
+
+// flowsBackInto: the sum reaches the cursor phi through phis and +/- adjustments.
+func flowsBackInto(v ssa.Value, cursor *ssa.Phi) bool {
+	seen := map[ssa.Value]bool{}
+	var walk func(x ssa.Value, d int) bool
+	walk = func(x ssa.Value, d int) bool {
+		if seen[x] || d > 8 {
+			return false
+		}
+		seen[x] = true
+		refs := x.Referrers()
+		if refs == nil {
+			return false
+		}
+		for _, ref := range *refs {
+			switch r := ref.(type) {
+			case *ssa.Phi:
+				if r == cursor || walk(r, d+1) {
+					return true
+				}
+			case *ssa.BinOp:
+				if (r.Op == token.ADD || r.Op == token.SUB) && walk(r, d+1) {
+					return true
+				}
+			}
+		}
+		return false
+	}
+	return walk(v, 0)
+}
+
+// isDoneChan: the done-channel idiom: a receive arm on a chan struct{} that some
+// function of the repository closes.
+func isDoneChan(ch ssa.Value) bool {
+	ct, ok := ch.Type().Underlying().(*types.Chan)
+	if !ok {
+		return false
+	}
+	st, ok := ct.Elem().Underlying().(*types.Struct)
+	if !ok || st.NumFields() != 0 {
+		return false
+	}
+	fld, ok := loadedField(ch)
+	if !ok {
+		return false
+	}
+	p := exceptionProgram
+	if p == nil {
+		return false
+	}
+	for _, fn := range p.allRepoFuncs() {
+		for _, b := range fn.Blocks {
+			for _, in := range b.Instrs {
+				c, ok := in.(ssa.CallInstruction)
+				if !ok {
+					continue
+				}
+				bi, ok := c.Common().Value.(*ssa.Builtin)
+				if !ok || bi.Name() != "close" || len(c.Common().Args) != 1 {
+					continue
+				}
+				if f2, ok := loadedField(c.Common().Args[0]); ok && f2 == fld {
+					return true
+				}
+			}
+		}
+	}
+	return false
+}
